@@ -374,7 +374,7 @@ def scheduler_ctx(name):
 
 
 def run_compute(spec, seed, scheduler="sync", write_stages=True, fault=None, out_dir=None, sink=None, keep_table=False,
-                out_name="out.fits", path_form="str"):
+                out_name="out.fits", path_form="str", preexisting=False):
     """One compute() run -> (events, final_table or None).  fault: None | ("boundary", k, "raise"|"exit") |
     ("stage", name)."""
     use_repo()
@@ -390,9 +390,14 @@ def run_compute(spec, seed, scheduler="sync", write_stages=True, fault=None, out
     out = os.path.join(out_dir, out_name)
     if os.path.exists(out):
         os.remove(out)
+    if preexisting:
+        # history: the output path already holds the (FITS) file of an earlier run with other columns and another header
+        from astropy.table import Table as _T
+        _T({"stale_col": np.array([1.5, 2.5, 3.5])}, meta={"STALE": 1}).write(out, format="fits", overwrite=True)
     events = []
     begin = {"kind": "Begin", "mode": cfg.simulation.mode, "optical": bool(cfg.detector.optical.enable),
-             "radio": bool(cfg.detector.radio.enable), "writeStages": bool(write_stages)}
+             "radio": bool(cfg.detector.radio.enable), "writeStages": bool(write_stages),
+             "stale": bool(preexisting), "disk0": snapshot_file(out, toks)}
     events.append(begin)
     if sink is not None:
         sink.write(json.dumps(begin) + "\n")
